@@ -249,6 +249,13 @@ impl Vt for Nc {
     }
 }
 
+// ---- generic and nested user types for the type-name engine (E6); never stored in records
+pub struct Wrap<T>(pub T);
+pub struct Pair<T, U>(pub T, pub U);
+pub mod inner {
+    pub struct Deep(pub u8);
+}
+
 // ---- serde for the palette types that are not std types: a value is serialised as its token
 macro_rules! tok_serde {
     ($($t:ty),*) => {$(
